@@ -138,6 +138,10 @@ class BitStringBitReader(BitReader):
             return self.bit_stream.read(fmt_string)
         except self.bitstring_Error as e:
             raise BitReadError(e.msg)
+        except ValueError as e:
+            # bitstring 4.x reports some failed reads, e.g. a bool at the
+            # end of the data, as ValueError instead of bitstring.Error
+            raise BitReadError(str(e))
 
     def read_bytes(self, nbytes):
         return self._bit_stream_read('bytes:{}'.format(nbytes))
